@@ -239,13 +239,15 @@ LeftDecides(a, sc, st) ==       \* a is l AND/OR r and the left operand decides 
     /\ a[1] = "B" /\ a[2] \in Logic
     /\ Eval(a[3], <<1>>, sc, st, <<>>)[1] = (IF a[2] = "AND" THEN False ELSE True)
 
+(* (TLC re-evaluates a LET definition that depends on the state at every use: the three evaluations of a step *)
+(* are bound once as values through quantifiers over singleton sets.)                                          *)
 Step(sc, mode, k) ==
-    LET impl == ApiCall(ast, mode, sc, cache, fstate, k)
-        fresh == IF cache = cache0 THEN impl ELSE ApiCall(ast, mode, sc, cache0, fstate, k)   \* the same call on a freshly compiled node
-        ref == EvalTop(ast, sc, rstate[k])
-        ill == TypeStrict(ast, sc) = "err"
+    \E impl \in {ApiCall(ast, mode, sc, cache, fstate, k)} :
+    \E fresh \in {IF cache = cache0 THEN impl ELSE ApiCall(ast, mode, sc, cache0, fstate, k)} :   \* the same call on a freshly compiled node
+    \E ref \in {EvalTop(ast, sc, rstate[k])} :
+    \E implSt \in {RefStateOf(ast, impl.s, k)} :
+    LET ill == TypeStrict(ast, sc) = "err"
         okRef == OutcomeAgrees(mode, impl.o, ref[1], ill, HasCall(ast))
-        implSt == RefStateOf(ast, impl.s, k)
         (* after an error the functions may or may not have been called, as far as the reference goes *)
         stOK == IF mode = "T" THEN implSt = rstate[k]
                 ELSE IF IsErr(impl.o) THEN ErrStateOK(rstate[k], EvalAll(ast, <<>>, sc, rstate[k], <<>>)[2], implSt)
